@@ -226,7 +226,11 @@ def setup():
     """Build the whole development and every extracted binary from the files on disk."""
     t0 = time.time()
     rc_all = 0
-    plugins = [load_plugin(p) for p in ALL if have_plugin(p)]
+    try:
+        claimed = {c['property_id'] for c in json.load(open(os.path.join(core.VERIF, 'MANIFEST.json')))['checks']}
+    except Exception:
+        claimed = set(ALL)
+    plugins = [load_plugin(p) for p in ALL if have_plugin(p) and p in claimed]
     with core.Lock():
         for pl in plugins:
             ctx = core.Ctx(pl.ID, 'quick', 0)
@@ -239,10 +243,15 @@ def setup():
                 core.write_if_changed(os.path.join(core.COQ, rel), text)
             os.makedirs(os.path.join(core.BUILD, 'ocaml', pl.ID), exist_ok=True)
         core.ensure_makefile()
-        rc, out = core.sh('timeout 3400 make -j16', cwd=core.COQ)
-        print(out[-3000:])
-        rc_all |= rc
+        # one make per property cone: an unfinished file of one property cannot break the others
         for pl in plugins:
+            targets = list(pl.COQ_CONE) + ([pl.EXTRACT] if getattr(pl, 'EXTRACT', None) else [])
+            ok, out = core.make_targets(targets, timeout=3000)
+            print('%s coq build: %s' % (pl.ID, 'ok' if ok else 'FAILED'))
+            if not ok:
+                print(out[-1500:])
+                rc_all |= 1
+                continue
             if getattr(pl, 'EXTRACT', None):
                 exe, err = core.build_binary(pl.ID, ['ocaml/common.ml'] + core.as_list(pl.DRIVER))
                 if exe is None:
